@@ -19,21 +19,33 @@ VF = 'mitxgraders/helpers/validatorfuncs.py'
 FILES = [MF, MH, FG, IG, MG, CMP, VF]
 
 EXPLANATION = (
-    "Normal-form, role and ordering rules over the resolved program (reference decision: DESIGN Appendix A4): "
-    "(D1) every value-returning path of within_tolerance is `norm(x - y) <= t` with a non-strict <=, t being the "
-    "tolerance or, under isinstance(tolerance, str), norm(x) * percentage_as_number(tolerance) (relative to the FIRST "
-    "argument); the infinity clause returns x == y for numbers when either side is +-inf; percentage_as_number is "
-    "float(s.strip()[:-1]) * 0.01; (D2) argument roles author/student are preserved at every hop gen_evaluations -> "
-    "raw_check -> compare_evaluations -> comparer -> utils.within_tolerance -> within_tolerance, for both "
-    "get_comparer_utils implementations and both raw_check implementations, and the default comparer is "
-    "equality_comparer; (D3) consolidate_results counts exactly the results whose ok is not True and returns the "
-    "failing result iff len(results) == 1 or failures > failable_evals, else the pruned answer; (D4) author and "
-    "student are evaluated in the same iteration of one loop over range(config['samples']) on the same scope "
-    "objects with only deletions in between, the i-th sample is loaded each iteration, and raw_check multiplies "
-    "every comparer grade by the answer's credit before consolidating with config['failable_evals']; (D5) the "
-    "tolerance/samples/failable_evals schema entries and PercentageString/NonNegative.")
-NOT_DECIDED = ("that algebraically identical rewrites agree numerically within the tolerance (floating point); the value "
-               "of numpy's norm; behaviour of author-supplied comparers and transforms.")
+    'Structural rules over the helper-inlined source; finite-domain evaluation is used only for GUARDS over '
+    'their complete domain with opaque data, never for results. (D1) within_tolerance: decision paths; the '
+    'path taken by each operand class (x, y each = -inf / finite / +inf by order type against the infinity '
+    'constants, number vs array by isinstance class, tolerance str vs number) is found by evaluating the '
+    'guards; every class with an infinite operand must end in the normal form `x == y`, array operands must '
+    'not reach the infinity test, and the remaining leaves must have the normal form norm(x - y) <= t (non- '
+    'strict; numpy norm resolved by name; closed table of entrywise forms = violation) with t the tolerance or '
+    'norm(x) * percentage_as_number(tolerance) relative to the FIRST argument; percentage_as_number = '
+    'float(s.strip()[:-1]) * 0.01. (D2) author/student roles at every hop gen_evaluations -> raw_check -> '
+    'compare_evaluations -> comparer -> utils.within_tolerance -> within_tolerance by def-use; in '
+    'compare_evaluations every comparer application is traced through its iteration construct (for + append, '
+    'comprehension, one-element list) to zip(author, student) or the whole lists per isinstance(comparer, '
+    'CorrelatedComparer) path. (D3) consolidate_results: the iteration over the results is recognised as '
+    'counting loop / enumerate over the filtered results / filtered list; the failure predicate is evaluated '
+    "over ok in {True, False, 'partial'} on an otherwise opaque record; the return condition is evaluated over "
+    'the count classes (len(results) = 1 or more, running failure count <, =, > failable_evals, counter start '
+    'and increment-before-test taken from the code) and must equal: failing iff (one sample and it fails) or '
+    'failures > failable_evals; the returned objects are checked by provenance. (D4) same-iteration, same- '
+    'scope evaluation of author and student, sample loading, credit multiplication and the consolidate '
+    'arguments by CFG/def-use. (D5) schema tables; PercentageString: sign test on float(text[:-1]) evaluated '
+    "over the order classes negative/zero/positive/nan, '%' suffix test, no fall-through. "
+)
+NOT_DECIDED = (
+    'that algebraically identical rewrites agree numerically within the tolerance (floating point); the value '
+    "of numpy's norm; behaviour of author-supplied comparers and transforms; any shape of the anchored "
+    'functions outside the recognised iteration/decision forms (reported as analysis-error, never guessed). '
+)
 ASSUMPTIONS = ["np.linalg.norm is the Frobenius/Euclidean norm and is symmetric in the sign of its argument",
                "author-supplied comparers use utils.within_tolerance(expected, student) as documented"]
 
@@ -239,6 +251,30 @@ def _check_tol_leaf(r, idx, fi, C, tag, leaf, where, px, py, pt):
                 r.undecided(C + ': comparison [absolute]', 'tolerance term not recognised: %s' % short(T), where)
 
 
+_GUARD_HELPERS_SEEN = set()
+
+
+def _inline_guard_helpers(idx, fi, guard, depth=2):
+    """Replace calls of newly extracted single-expression predicate helpers (same module, one `return <expr>` after
+    forward substitution) by their body with the arguments substituted -- on the AST, nothing is evaluated."""
+    class T(ast.NodeTransformer):
+        def visit_Call(self, node):
+            self.generic_visit(node)
+            if isinstance(node.func, ast.Name) and node.func.id in fi.module.funcs and not node.keywords:
+                h = fi.module.funcs[node.func.id]
+                if h.qualname in idx.unreviewed and len(node.args) == len(h.params) and not h.node.args.defaults:
+                    hp = nf.decision_paths(h.node.body)
+                    if len(hp) == 1 and hp[0].leaf.kind == 'ret' and not hp[0].effects:
+                        _GUARD_HELPERS_SEEN.add(h.qualname)
+                        return nf.subst(hp[0].leaf.expr, dict(zip(h.params, node.args)))
+            return node
+    from ..index import clone
+    out = clone(guard)
+    for _ in range(depth):
+        out = T().visit(out)
+    return nf.canon(out)
+
+
 def d1_within_tolerance(ctx, idx):
     r = ctx.rule('D1.TOL', 'within_tolerance decides norm(x - y) <= t (non-strict), t absolute or a percentage of '
                  'norm(x); +-inf only equals itself', floor=4)
@@ -257,7 +293,9 @@ def d1_within_tolerance(ctx, idx):
             elif p.leaf.kind == 'raise':
                 r.undecided(C, 'unreviewed raise inside within_tolerance: %s' % short(p.leaf.stmt), where)
         paths = [p for p in paths if p.leaf.kind == 'ret']
-        understood = not idx.unreviewed
+        for p in paths:
+            p.guards = [_inline_guard_helpers(idx, fi, g) for g in p.guards]
+        understood = not [q for q in idx.unreviewed if q not in _GUARD_HELPERS_SEEN]
         INF = float('inf')
         ARR = mev.ArrayModel()
 
@@ -265,7 +303,7 @@ def d1_within_tolerance(ctx, idx):
             env = {px: x, py: y, pt: tol, '__module__': fi.module}
             taken = [p for p in paths if all(mev.ev(g, env) for g in p.guards)]
             if len(taken) != 1:
-                raise AnalysisError('within_tolerance: %d paths match the model input (%r, %r, %r)' % (len(taken), x, y, tol))
+                raise AnalysisError('within_tolerance: %d paths match the operand class (%r, %r, %r)' % (len(taken), x, y, tol))
             return taken[0], env
         try:
             # ---- infinite operands (numbers)
@@ -330,7 +368,7 @@ def d1_within_tolerance(ctx, idx):
                 for text, p in leaves.items():
                     _check_tol_leaf(r, idx, fi, C, tag, p.leaf.expr, lib.loc(fi, p.leaf.stmt), px, py, pt)
         except mev.Unsupported as e:
-            r.undecided(C, 'a guard of within_tolerance is outside the supported model evaluation (%s)' % e, fi.loc)
+            r.undecided(C, 'a guard of within_tolerance is outside the supported guard evaluation (%s)' % e, fi.loc)
 
 
 def d1_percentage(ctx, idx):
@@ -748,6 +786,27 @@ def _is_equality_comparer(idx, module, name):
 
 
 # ----------------------------------------------------------------------------- D3
+OK_VALUES = (True, False, 'partial')
+
+
+def _failure_predicate(test, var):
+    """Which of the three ok values make `test` true, the record being opaque apart from its 'ok' entry."""
+    out = {}
+    for v in OK_VALUES:
+        out[v] = bool(mev.ev(test, {var: {'ok': v, 'grade_decimal': {True: 1, False: 0, 'partial': 0.5}[v]}}))
+    return out
+
+
+def _filter_over(expr, p_res):
+    """(element variable, predicate) if expr is `[r for r in <results> if P(r)]` / generator / filter-free -> None."""
+    if isinstance(expr, (ast.ListComp, ast.GeneratorExp)) and len(expr.generators) == 1 and isinstance(expr.generators[0].target, ast.Name):
+        g = expr.generators[0]
+        seq, _ = fl.unwrap_seq(g.iter)
+        if fl.name_of(seq) == p_res and fl.name_of(expr.elt) == g.target.id and len(g.ifs) == 1:
+            return g.target.id, g.ifs[0]
+    return None
+
+
 def d3_consolidate(ctx, idx):
     r = ctx.rule('D3.CONSOLIDATE', 'one failure per result whose ok is not True; failing result returned iff '
                  'len(results) == 1 or failures > failable_evals; otherwise the pruned answer', floor=7)
@@ -758,234 +817,265 @@ def d3_consolidate(ctx, idx):
         if len(ps) != 3:
             raise AnalysisError('consolidate_results: unexpected parameters %s' % fi.params)
         p_res, p_ans, p_fail = ps
+        env = fl.flat_env(fi.node)
         loops = [l for l in lib.loops_of(fi.node)]
-        try:
-            _d3_model(r, fi, C, p_res, p_ans, p_fail)
-            return
-        except mev.Unsupported as e:
-            if not loops:
-                r.undecided(C + ': decision', 'form outside the supported model evaluation (%s)' % e, fi.loc)
-                return
-        # fallback: structural rules for the counting-loop form
-        loops = [l for l in loops if isinstance(l, ast.For) and fl.mentions(l.iter, p_res)]
-        if len(loops) != 1:
-            raise AnalysisError('consolidate_results: expected exactly one loop over the results, found %d' % len(loops))
-        loop = loops[0]
-        if not (isinstance(loop.iter, ast.Name) and loop.iter.id == p_res and isinstance(loop.target, ast.Name)):
-            if isinstance(loop.iter, ast.Subscript):
+        form = None
+        # ---------------- recognise the iteration construct
+        if len(loops) == 1 and isinstance(loops[0], ast.For):
+            loop = loops[0]
+            seq, start = fl.unwrap_seq(loop.iter)
+            seq_x = fl.expand(seq, env) if isinstance(seq, ast.Name) and seq.id != p_res else seq
+            flt = _filter_over(seq_x, p_res)
+            if fl.name_of(seq) == p_res and start is None and isinstance(loop.target, ast.Name):
+                form = 'count'
+            elif flt is not None and start is not None and isinstance(loop.target, (ast.Tuple, ast.List)) and len(loop.target.elts) == 2 \
+                    and all(isinstance(e, ast.Name) for e in loop.target.elts):
+                form = 'enumerate'
+            elif isinstance(seq, ast.Subscript) and fl.mentions(seq, p_res):
                 r.violation(C + ': loop', 'only part of the results is examined (`%s`): failures in the other samples are not '
-                            'counted' % short(loop.iter), lib.loc(fi, loop), expected='for result in %s' % p_res)
+                            'counted' % short(seq), lib.loc(fi, loop), expected='for result in %s' % p_res)
+                return
+        elif not loops:
+            form = 'filter'
+        if form is None:
+            raise AnalysisError('consolidate_results: iteration over the results not recognised (%d loops)' % len(loops))
+        tail = [x for x in lib.returns_of(fi.node) if not loops or not any(x is n for n in ast.walk(loops[0]))]
+        try:
+            if form == 'count':
+                decide, fail_ret, where_t = _d3_count_form(r, idx, fi, C, loop, p_res, p_fail)
+            elif form == 'enumerate':
+                decide, fail_ret, where_t = _d3_enumerate_form(r, fi, C, loop, flt, start, p_res, p_fail)
             else:
-                r.undecided(C + ': loop', 'iteration not recognised: %s' % short(loop.iter), lib.loc(fi, loop))
+                decide, fail_ret, where_t, tail = _d3_filter_form(r, fi, C, env, p_res, p_fail)
+        except mev.Unsupported as e:
+            r.undecided(C + ': threshold', 'a condition is outside the supported guard evaluation (%s)' % e, fi.loc)
             return
-        rv = loop.target.id
-        r.ok(C + ': loop', 'iterates over every result', lib.loc(fi, loop))
-        # the failure test: an If directly testing result['ok']
-        tests = [n for n in ast.walk(loop) if isinstance(n, ast.If) and
-                 any(nf.match("%s['ok']" % rv, x) is not None for x in ast.walk(n.test))]
-        if len(tests) != 1:
-            raise AnalysisError("consolidate_results: expected one test of %s['ok'] in the loop, found %d" % (rv, len(tests)))
-        ft = tests[0]
-        t = nf.canon(ft.test)
-        where = lib.loc(fi, ft)
-        good = ["%s['ok'] != True" % rv, "%s['ok'] is not True" % rv]
-        partial_as_pass = ["%s['ok'] == False" % rv, "%s['ok'] is False" % rv, "not %s['ok']" % rv,
-                           "%s['ok'] != True and %s['ok'] != 'partial'" % (rv, rv), "%s['grade_decimal'] == 0" % rv]
-        everything_fails = ["%s['ok'] == True" % rv, "%s['ok'] is True" % rv]
-        if any(nf.match(g, t) is not None for g in good):
-            r.ok(C + ': failure test', "a result fails iff its ok is not True ('partial' fails)", where)
-        elif any(nf.match(g, t) is not None for g in partial_as_pass):
-            r.violation(C + ': failure test', "`%s` counts only ok == False as a failure: a sample graded 'partial' passes as if it "
-                        "agreed, so a partially wrong formula earns the answer's full credit" % unparse(ft.test), where,
-                        expected="%s['ok'] != True" % rv, found=unparse(ft.test))
-        elif any(nf.match(g, t) is not None for g in everything_fails):
-            r.violation(C + ': failure test', 'the test is inverted: agreeing samples are counted as failures', where,
-                        expected="%s['ok'] != True" % rv, found=unparse(ft.test))
+        if decide is None:
+            return
+        # ---------------- the decision over the count classes: n = len(results), k = failures, f = failable_evals
+        wrong = None
+        try:
+            for n in (1, 2, 3):
+                for k in range(0, n + 1):
+                    for f in (0, 1, 2):
+                        got = decide(n, k, f)
+                        want = (n == 1 and k >= 1) or k > f
+                        if got != want and wrong is None:
+                            wrong = (n, k, f, got)
+        except mev.Unsupported as e:
+            r.undecided(C + ': threshold', 'the return condition is outside the supported guard evaluation (%s)' % e, where_t)
+            wrong = 'und'
+        if wrong is None:
+            r.ok(C + ': threshold', 'failing iff (one sample and it fails) or failures > failable_evals, on all classes of '
+                 '(len(results) = 1 | > 1, failures <, =, > failable_evals)', where_t)
+        elif wrong != 'und':
+            n, k, f, got = wrong
+            r.violation(C + ': threshold', 'for %s with %d failing and failable_evals = %d the response is %s: %s'
+                        % ('a single sample' if n == 1 else '%d samples' % n, k, f,
+                           'reported as failing although the failures are within failable_evals' if got else 'NOT reported as failing',
+                           'a single-sample grader must tolerate no failure, whatever failable_evals says' if n == 1 and not got else
+                           ('the verdict must be wrong iff #failed > failable_evals (strict), or the single sample failed')),
+                        where_t, expected='len(results) == 1 or failures > failable_evals')
+        # ---------------- what is handed back
+        if fail_ret is True:
+            r.ok(C + ': failing verdict', 'returns a failing result itself', where_t)
+        elif fail_ret:
+            r.violation(C + ': failing verdict', fail_ret, where_t)
         else:
-            r.undecided(C + ': failure test', 'not recognised: %s' % short(ft.test), where)
-        # the counter
-        incs = []
-        for n in ast.walk(loop):
-            if isinstance(n, ast.AugAssign) and isinstance(n.target, ast.Name):
-                incs.append((n, n.target.id, ast.BinOp(left=ast.Name(id=n.target.id, ctx=ast.Load()), op=n.op, right=n.value)))
-            elif isinstance(n, ast.Assign) and len(n.targets) == 1 and isinstance(n.targets[0], ast.Name) \
-                    and fl.mentions(n.value, n.targets[0].id):
-                incs.append((n, n.targets[0].id, n.value))
-        if len(incs) != 1:
-            if not incs:
-                fl.absent(r, idx, C + ': counter', 'failures are no longer counted inside the loop', lib.loc(fi, loop))
-                return
-            raise AnalysisError('consolidate_results: several accumulators in the loop')
-        inc, cn, val = incs[0]
-        res = nf.classify('%s + 1' % cn, val)
-        in_fail = any(a is ft and br == 'body' for a, br in fl.if_chain_containing(inc, fi.node))
-        if res == nf.MATCH and in_fail:
-            r.ok(C + ': counter', 'incremented by one for every failing result', lib.loc(fi, inc))
-        elif res == nf.MATCH:
-            r.violation(C + ': counter', 'the failure counter is incremented outside the failure test: every sample counts as a failure '
-                        'or none does', lib.loc(fi, inc))
-        elif isinstance(res, tuple):
-            r.violation(C + ': counter', res[1], lib.loc(fi, inc), expected='%s += 1' % cn, found=short(inc))
-        else:
-            r.undecided(C + ': counter', 'update not recognised: %s' % short(inc), lib.loc(fi, inc))
-        inits = [v for v in lib.assigned_value(fi.node, cn) if not fl.mentions(v, cn)]
-        if len(inits) == 1 and nf.const_value(inits[0], None) == 0 and not isinstance(nf.const_value(inits[0]), bool):
-            init_stmt = enclosing_stmt(inits[0])
-            r.check(lib.dominated(fi, [init_stmt], [loop.iter]) and fl.enclosing_loop(init_stmt, fi.node) is None,
-                    C + ': counter start', 'starts at 0 before the loop', 'the counter is (re)set inside or after the loop',
-                    lib.loc(fi, init_stmt))
-        elif len(inits) == 1 and isinstance(nf.const_value(inits[0], None), (int, float)):
-            r.violation(C + ': counter start', 'the failure counter starts at %r instead of 0' % nf.const_value(inits[0]),
-                        lib.loc(fi, inits[0]), expected='0')
-        else:
-            r.undecided(C + ': counter start', 'initialisation not recognised', fi.loc)
-        # the early return
-        rets = [n for n in ast.walk(loop) if isinstance(n, ast.Return)]
-        others = [e for e in lib.loop_has_early_exit(loop) if not isinstance(e, ast.Return)]
-        for e in others:
-            r.violation(C + ': loop', '`%s` leaves/skips the loop: later results are not examined' % short(e), lib.loc(fi, e))
-        if len(rets) != 1:
-            if not rets:
-                fl.absent(r, idx, C + ': threshold', 'the loop never returns a failing result: every response obtains the answer\'s credit',
-                            lib.loc(fi, loop))
-                return
-            raise AnalysisError('consolidate_results: several returns inside the loop')
-        ret = rets[0]
-        chain = fl.if_chain_containing(ret, fi.node)
-        if not any(a is ft and br == 'body' for a, br in chain):
-            r.violation(C + ': threshold', 'the early return is not under the failure test: a passing result can be returned as the '
-                        'verdict', lib.loc(fi, ret))
-        inner = [(a, br) for a, br in chain if a is not ft]
-        if len(inner) != 1 or inner[0][1] != 'body':
-            if not inner:
-                r.violation(C + ': threshold', 'the first failing sample is returned unconditionally: failable_evals is ignored',
-                            lib.loc(fi, ret), expected='if len(%s) == 1 or %s > %s' % (p_res, cn, p_fail))
-            else:
-                r.undecided(C + ': threshold', 'guards of the early return not recognised', lib.loc(fi, ret))
-        else:
-            cond = inner[0][0].test
-            res = nf.classify('len(%s) == 1 or %s < %s' % (p_res, p_fail, cn), cond)
-            if res == nf.MATCH:
-                r.ok(C + ': threshold', 'len(results) == 1 or failures > failable_evals (strict)', lib.loc(fi, inner[0][0]))
-            elif isinstance(res, tuple):
-                r.violation(C + ': threshold', res[1] + ' -- the verdict must be wrong iff #failed > failable_evals, or the single '
-                            'sample failed', lib.loc(fi, inner[0][0]),
-                            expected='len(%s) == 1 or %s > %s' % (p_res, cn, p_fail), found=unparse(cond))
-            else:
-                r.undecided(C + ': threshold', 'condition not recognised: %s' % short(cond), lib.loc(fi, inner[0][0]))
-            # the counter is updated before it is compared
-            if not lib.dominated(fi, [inc], [inner[0][0].test]):
-                r.violation(C + ': threshold', 'the failure counter is compared before it is incremented: one more failure than '
-                            'failable_evals is tolerated', lib.loc(fi, inner[0][0]))
-        if isinstance(ret.value, ast.Name) and ret.value.id == rv:
-            r.ok(C + ': failing verdict', 'returns the failing result itself', lib.loc(fi, ret))
-        else:
-            prov = fl.Prov(fi.node, roots=[p_res, p_ans])
-            if prov.of(ret.value) & {p_ans} and not (prov.of(ret.value) & {p_res}):
-                r.violation(C + ': failing verdict', 'the answer (credit) is returned for a failing response', lib.loc(fi, ret))
-            else:
-                r.undecided(C + ': failing verdict', 'returned value not recognised: %s' % short(ret), lib.loc(fi, ret))
-        # fall-through verdict
-        cfg = cfg_of(fi.node)
-        tail = [x for x in lib.returns_of(fi.node) if x is not ret]
+            r.undecided(C + ': failing verdict', 'returned value not recognised', where_t)
         if len(tail) != 1:
-            raise AnalysisError('consolidate_results: expected one return after the loop')
+            raise AnalysisError('consolidate_results: expected one return for the agreeing case')
         prov = fl.Prov(fi.node, roots=[p_res, p_ans])
         pr = prov.of(tail[0].value)
         if pr == {p_ans}:
-            v = lib.inline_locals(tail[0].value, fi.node)
-            keys = None
-            if isinstance(v, ast.DictComp) and len(v.generators) == 1:
-                keys = nf.const_value(v.generators[0].iter)
-            if keys is not None and set(keys) == {'ok', 'grade_decimal', 'msg'} and \
-                    nf.match('%s[_K]' % p_ans, v.value) is not None:
+            v = fl.expand(tail[0].value, env)
+            keys = nf.const_value(v.generators[0].iter) if isinstance(v, ast.DictComp) and len(v.generators) == 1 else None
+            src = v.value.value if isinstance(v, ast.DictComp) and isinstance(v.value, ast.Subscript) else None
+            src_ok = False
+            if isinstance(src, ast.Name) and src.id == p_ans:
+                src_ok = True
+            elif isinstance(src, ast.IfExp):
+                t = nf.canon(src.test)
+                if nf.match('%s is None' % p_ans, t) is not None and isinstance(src.body, ast.Dict) and fl.name_of(src.orelse) == p_ans:
+                    src_ok = True
+                elif nf.match('%s is not None' % p_ans, t) is not None and isinstance(src.orelse, ast.Dict) and fl.name_of(src.body) == p_ans:
+                    src_ok = True
+            if keys is not None and set(keys) == {'ok', 'grade_decimal', 'msg'} and src_ok:
                 r.ok(C + ': passing verdict', "the answer pruned to ok/grade_decimal/msg", lib.loc(fi, tail[0]))
             elif isinstance(v, ast.Name) and v.id == p_ans:
                 r.ok(C + ': passing verdict', 'the answer', lib.loc(fi, tail[0]))
             else:
                 r.undecided(C + ': passing verdict', 'not recognised: %s' % short(v), lib.loc(fi, tail[0]))
         elif p_res in pr:
-            r.violation(C + ': passing verdict', 'a comparer result is returned instead of the answer\'s credit/message',
-                        lib.loc(fi, tail[0]))
+            r.violation(C + ': passing verdict', 'a comparer result is returned instead of the answer\'s credit/message', lib.loc(fi, tail[0]))
         else:
             r.undecided(C + ': passing verdict', 'returned value not recognised: %s' % short(tail[0]), lib.loc(fi, tail[0]))
 
 
-def _d3_model(r, fi, C, p_res, p_ans, p_fail):
-    """Decide the verdict of consolidate_results by interpreting its body on model inputs (1-3 results with ok in
-    {True, False, 'partial'}, failable_evals 0-2), whatever its shape (counting loop, filter, lazy generator)."""
-    import itertools
-    answer = {'ok': True, 'grade_decimal': 1, 'msg': 'well done', 'expect': 'x'}
-    pruned = {'ok': True, 'grade_decimal': 1, 'msg': 'well done'}
+def _opaque(n):
+    return [object() for _ in range(n)]
 
-    def rec(kind):
-        return {True: {'ok': True, 'grade_decimal': 1.0, 'msg': ''}, False: {'ok': False, 'grade_decimal': 0, 'msg': ''},
-                'partial': {'ok': 'partial', 'grade_decimal': 0.5, 'msg': ''}}[kind]
-    classes = {
-        'single sample, failing': [], 'single sample, agreeing': [], 'several samples, failures > failable_evals': [],
-        'several samples, failures <= failable_evals': [], "a 'partial' sample counts as a failure": [],
-        'the failing verdict is one of the failing results': [], 'no answer given (None)': []}
-    where = fi.loc
-    for n in (1, 2, 3):
-        for kinds in itertools.product([True, False, 'partial'], repeat=n):
-            for f in (0, 1, 2):
-                for ans in (answer, None):
-                    if ans is None and (n > 1 or f > 0):
-                        continue
-                    results = [rec(k) for k in kinds]
-                    env = {p_res: results, p_ans: dict(ans) if ans is not None else None, p_fail: f}
-                    try:
-                        kind, got, stmt = mev.call(fi.node, env)
-                    except mev.ModelRaise:
-                        raise AnalysisError('consolidate_results: a model input raises')
-                    k = sum(1 for x in kinds if x is not True)
-                    must_fail = (n == 1 and k >= 1) or k > f
-                    is_failing_result = any(got is x for x in results if x['ok'] is not True)
-                    is_any_result = any(got is x for x in results)
-                    is_answer = got == (pruned if ans is not None else {'ok': True, 'grade_decimal': 1, 'msg': ''})
-                    desc = 'results ok=%s, failable_evals=%d' % (list(kinds), f)
-                    line = lib.loc(fi, stmt) if stmt is not None else fi.loc
-                    if ans is None:
-                        cls = 'no answer given (None)'
-                        okv = is_answer if not must_fail else is_failing_result
-                    elif n == 1:
-                        cls = 'single sample, failing' if k else 'single sample, agreeing'
-                        okv = is_failing_result if must_fail else is_answer
-                    else:
-                        cls = 'several samples, failures > failable_evals' if must_fail else 'several samples, failures <= failable_evals'
-                        okv = is_failing_result if must_fail else is_answer
-                    classes[cls].append((okv, desc, must_fail, got, line))
-                    if 'partial' in kinds and False not in kinds and kinds.count('partial') == 1 and f == 0 and ans is not None:
-                        classes["a 'partial' sample counts as a failure"].append((is_failing_result, desc, True, got, line))
-                    if must_fail and ans is not None:
-                        classes['the failing verdict is one of the failing results'].append(
-                            (is_failing_result or not is_any_result, desc, True, got, line))
-    for cls, items in classes.items():
-        bad = [it for it in items if not it[0]]
-        construct = C + ': decision [%s]' % cls
-        if not items:
-            r.undecided(construct, 'no model input falls into this class', where)
-        elif bad:
-            okv, desc, must_fail, got, line = bad[0]
-            if must_fail:
-                what = ("the response is NOT reported as failing (returned %s): %s" %
-                        ('the answer\'s credit' if isinstance(got, dict) and got.get('msg') in ('well done', '') and got.get('ok') is True
-                         else short_repr(got),
-                         'a single-sample grader must tolerate no failure, whatever failable_evals says' if cls.startswith('single')
-                         else 'more samples disagree than failable_evals allows'
-                         if not cls.startswith('the failing') else 'the verdict handed back is an agreeing sample'))
-            else:
-                what = 'the response is reported as failing (returned %s) although the number of failures is within failable_evals' \
-                       % short_repr(got)
-            r.violation(construct, 'for %s %s (%d of %d model inputs of this class differ)' % (desc, what, len(bad), len(items)), line,
-                        expected='failing result iff (len(results) == 1 and failures >= 1) or failures > failable_evals')
+
+def _report_predicate(r, C, test, var, where):
+    tab = _failure_predicate(test, var)
+    if tab == {True: False, False: True, 'partial': True}:
+        r.ok(C + ': failure test', "a result fails iff its ok is not True ('partial' fails), over ok in {True, False, 'partial'}", where)
+    elif tab == {True: False, False: True, 'partial': False}:
+        r.violation(C + ': failure test', "`%s` counts only ok == False as a failure: a sample graded 'partial' passes as if it agreed, so a "
+                    "partially wrong formula earns the answer's full credit" % unparse(test), where,
+                    expected="%s['ok'] != True" % var, found=unparse(test))
+    else:
+        r.violation(C + ': failure test', '`%s` treats ok values %s as failures, expected [False, \'partial\']'
+                    % (unparse(test), [k for k in OK_VALUES if tab[k]]), where, expected="%s['ok'] != True" % var, found=unparse(test))
+
+
+def _d3_count_form(r, idx, fi, C, loop, p_res, p_fail):
+    rv = loop.target.id
+    r.ok(C + ': loop', 'iterates over every result', lib.loc(fi, loop))
+    others = [e for e in lib.loop_has_early_exit(loop) if not isinstance(e, ast.Return)]
+    for e in others:
+        r.violation(C + ': loop', '`%s` leaves/skips the loop: later results are not examined' % short(e), lib.loc(fi, e))
+    tests = [n for n in ast.walk(loop) if isinstance(n, ast.If) and any(nf.match("%s['ok']" % rv, x) is not None for x in ast.walk(n.test))]
+    if len(tests) != 1:
+        raise AnalysisError("consolidate_results: expected one test of %s['ok'] in the loop, found %d" % (rv, len(tests)))
+    ft = tests[0]
+    _report_predicate(r, C, ft.test, rv, lib.loc(fi, ft))
+    incs = []
+    for n in ast.walk(loop):
+        if isinstance(n, ast.AugAssign) and isinstance(n.target, ast.Name):
+            incs.append((n, n.target.id, ast.BinOp(left=ast.Name(id=n.target.id, ctx=ast.Load()), op=n.op, right=n.value)))
+        elif isinstance(n, ast.Assign) and len(n.targets) == 1 and isinstance(n.targets[0], ast.Name) \
+                and fl.mentions(n.value, n.targets[0].id):
+            incs.append((n, n.targets[0].id, n.value))
+    if len(incs) != 1:
+        if not incs:
+            fl.absent(r, idx, C + ': counter', 'failures are no longer counted inside the loop', lib.loc(fi, loop))
+            return None, None, None
+        raise AnalysisError('consolidate_results: several accumulators in the loop')
+    inc, cn, val = incs[0]
+    res = nf.classify('%s + 1' % cn, val)
+    in_fail = any(a is ft and br == 'body' for a, br in fl.if_chain_containing(inc, fi.node))
+    if res == nf.MATCH and in_fail:
+        r.ok(C + ': counter', 'incremented by one for every failing result', lib.loc(fi, inc))
+    elif res == nf.MATCH:
+        r.violation(C + ': counter', 'the failure counter is incremented outside the failure test: every sample counts as a failure '
+                    'or none does', lib.loc(fi, inc))
+    elif isinstance(res, tuple):
+        r.violation(C + ': counter', res[1], lib.loc(fi, inc), expected='%s += 1' % cn, found=short(inc))
+    else:
+        r.undecided(C + ': counter', 'update not recognised: %s' % short(inc), lib.loc(fi, inc))
+    inits = [v for v in lib.assigned_value(fi.node, cn) if not fl.mentions(v, cn)]
+    c0 = nf.const_value(inits[0], None) if len(inits) == 1 else None
+    if isinstance(c0, bool) or not isinstance(c0, int):
+        r.undecided(C + ': counter start', 'initialisation not recognised', fi.loc)
+        return None, None, None
+    init_stmt = enclosing_stmt(inits[0])
+    if not (lib.dominated(fi, [init_stmt], [loop.iter]) and fl.enclosing_loop(init_stmt, fi.node) is None):
+        r.violation(C + ': counter start', 'the counter is (re)set inside or after the loop', lib.loc(fi, init_stmt))
+        return None, None, None
+    rets = [n for n in ast.walk(loop) if isinstance(n, ast.Return)]
+    if len(rets) != 1:
+        if not rets:
+            r.violation(C + ': threshold', 'the loop never returns a failing result: every response obtains the answer\'s credit',
+                        lib.loc(fi, loop))
+            return None, None, None
+        raise AnalysisError('consolidate_results: several returns inside the loop')
+    ret = rets[0]
+    chain = fl.if_chain_containing(ret, fi.node)
+    if not any(a is ft and br == 'body' for a, br in chain):
+        r.violation(C + ': threshold', 'the early return is not under the failure test: a passing result can be returned as the '
+                    'verdict', lib.loc(fi, ret))
+        return None, None, None
+    inner = [(a, br) for a, br in chain if a is not ft]
+    if any(br != 'body' for a, br in inner):
+        r.undecided(C + ': threshold', 'guards of the early return not recognised', lib.loc(fi, ret))
+        return None, None, None
+    conds = [a.test for a, br in inner]
+    # the counter value seen by the condition for the j-th failing result
+    before = all(lib.dominated(fi, [inc], [a.test]) for a, br in inner) if inner else lib.dominated(fi, [inc], [ret])
+    r.ok(C + ': counter start', 'starts at %d before the loop; %s the comparison' % (c0, 'incremented before' if before else
+                                                                                   'incremented AFTER'), lib.loc(fi, init_stmt))
+
+    def decide(n, k, f):
+        for j in range(1, k + 1):
+            e = {p_res: _opaque(n), cn: c0 + j - (0 if before else 1), p_fail: f}
+            if all(mev.ev(c, e) for c in conds):
+                return True
+        return False
+    fail_ret = True if fl.name_of(ret.value) == rv else None
+    return decide, fail_ret, lib.loc(fi, inner[0][0]) if inner else lib.loc(fi, ret)
+
+
+def _d3_enumerate_form(r, fi, C, loop, flt, start, p_res, p_fail):
+    var, pred = flt
+    num, item = [e.id for e in loop.target.elts]
+    r.ok(C + ': loop', 'iterates over every result (filtered lazily, numbered by enumerate)', lib.loc(fi, loop))
+    others = [e for e in lib.loop_has_early_exit(loop) if not isinstance(e, ast.Return)]
+    for e in others:
+        r.violation(C + ': loop', '`%s` leaves/skips the loop: later results are not examined' % short(e), lib.loc(fi, e))
+    _report_predicate(r, C, pred, var, lib.loc(fi, pred))
+    if not isinstance(start, int) or isinstance(start, bool):
+        r.undecided(C + ': counter', 'enumerate start not a literal', lib.loc(fi, loop))
+        return None, None, None
+    r.ok(C + ': counter', 'enumerate numbers the failing results one by one', lib.loc(fi, loop))
+    r.ok(C + ': counter start', 'enumerate(start=%d): the j-th failing result carries the number %d + j - 1' % (start, start), lib.loc(fi, loop))
+    rets = [n for n in ast.walk(loop) if isinstance(n, ast.Return)]
+    if len(rets) != 1:
+        raise AnalysisError('consolidate_results: expected one return inside the loop')
+    ret = rets[0]
+    chain = fl.if_chain_containing(ret, fi.node)
+    if any(br != 'body' for a, br in chain):
+        r.undecided(C + ': threshold', 'guards of the early return not recognised', lib.loc(fi, ret))
+        return None, None, None
+    conds = [a.test for a, br in chain]
+
+    def decide(n, k, f):
+        for j in range(1, k + 1):
+            e = {p_res: _opaque(n), num: start + j - 1, p_fail: f}
+            if all(mev.ev(c, e) for c in conds):
+                return True
+        return False
+    fail_ret = True if fl.name_of(ret.value) == item else None
+    return decide, fail_ret, lib.loc(fi, chain[0][0]) if chain else lib.loc(fi, ret)
+
+
+def _d3_filter_form(r, fi, C, env, p_res, p_fail):
+    cands = [(k, _filter_over(v, p_res)) for k, v in env.items() if _filter_over(v, p_res) is not None]
+    if len(cands) != 1:
+        raise AnalysisError('consolidate_results: no loop and %d filtered views of the results' % len(cands))
+    fname, (var, pred) = cands[0]
+    where = lib.loc(fi, env[fname])
+    r.ok(C + ': loop', 'every result is examined by the filter `%s`' % fname, where)
+    _report_predicate(r, C, pred, var, where)
+    r.ok(C + ': counter', 'len(%s) is the number of failing results' % fname, where)
+    r.ok(C + ': counter start', 'no running counter', where)
+    rets = lib.returns_of(fi.node)
+    fail_rets = [x for x in rets if fl.mentions(x.value, fname)]
+    tail = [x for x in rets if not fl.mentions(x.value, fname)]
+    if len(fail_rets) != 1:
+        raise AnalysisError('consolidate_results: expected one return of a failing result, found %d' % len(fail_rets))
+    ret = fail_rets[0]
+    chain = fl.if_chain_containing(ret, fi.node)
+    if not chain or any(br != 'body' for a, br in chain):
+        if not chain:
+            r.violation(C + ': threshold', 'a failing result is returned unconditionally', lib.loc(fi, ret))
         else:
-            r.ok(construct, '%d model inputs decided as required' % len(items), where)
+            r.undecided(C + ': threshold', 'guards of the return not recognised', lib.loc(fi, ret))
+        return None, None, None, tail
+    conds = [a.test for a, br in chain]
+    v = ret.value
+    index = v.slice if isinstance(v, ast.Subscript) and fl.name_of(v.value) == fname else None
 
-
-def short_repr(v):
-    t = repr(v)
-    return t if len(t) < 70 else t[:67] + '...'
+    def decide(n, k, f):
+        e = {p_res: _opaque(n), fname: _opaque(k), p_fail: f}
+        hit = all(mev.ev(c, e) for c in conds)
+        if hit and index is not None:
+            i = mev.ev(index, e)
+            if not isinstance(i, int) or not (-k <= i < k):
+                raise mev.Unsupported('index %r out of range for %d failing results' % (i, k))
+        return bool(hit)
+    fail_ret = True if index is not None else None
+    return decide, fail_ret, lib.loc(fi, chain[0][0]), tail
 
 
 # ----------------------------------------------------------------------------- D4
@@ -1164,9 +1254,104 @@ def d4_samples(ctx, idx):
                             lib.loc(fi, sc))
 
 
+def _consolidate_failure_table(idx):
+    """{ok value: counted as failure?} of consolidate_results' failure predicate, or None if its form is not recognised."""
+    fi = idx.func(MM + '.consolidate_results')
+    ps = [p for p in fi.params if p not in ('self', 'cls')]
+    if len(ps) != 3:
+        return None
+    p_res = ps[0]
+    env = fl.flat_env(fi.node)
+    try:
+        loops = lib.loops_of(fi.node)
+        if len(loops) == 1 and isinstance(loops[0], ast.For):
+            loop = loops[0]
+            seq, start = fl.unwrap_seq(loop.iter)
+            if fl.name_of(seq) == p_res and isinstance(loop.target, ast.Name):
+                rv = loop.target.id
+                tests = [n for n in ast.walk(loop) if isinstance(n, ast.If) and
+                         any(nf.match("%s['ok']" % rv, x) is not None for x in ast.walk(n.test))]
+                if len(tests) == 1:
+                    return _failure_predicate(tests[0].test, rv)
+                return None
+            seq_x = fl.expand(seq, env) if isinstance(seq, ast.Name) else seq
+            flt = _filter_over(seq_x, p_res)
+            if flt is not None:
+                return _failure_predicate(flt[1], flt[0])
+            return None
+        if not loops:
+            cands = [_filter_over(v, p_res) for v in env.values() if _filter_over(v, p_res) is not None]
+            if len(cands) == 1:
+                return _failure_predicate(cands[0][1], cands[0][0])
+    except mev.Unsupported:
+        return None
+    return None
+
+
+def _ok_stores_between(r, idx, fi, name, rn, ccall, kcall):
+    """A result whose ok is True after the comparison must still be True when consolidate_results counts `ok != True` as
+    a failure: every store to result['ok'] between the two calls must be guarded so that it cannot run for ok == True."""
+    construct = name + ': ok after scaling'
+    stores = []
+    for n in walk_own(fi.node):
+        if isinstance(n, ast.Assign):
+            for t in n.targets:
+                if isinstance(t, ast.Subscript) and lib.subscript_key(t) == 'ok':
+                    stores.append((n, t))
+    cfg = cfg_of(fi.node)
+    c_nodes, k_nodes = fl.nodes_for(cfg, ccall), fl.nodes_for(cfg, kcall)
+    relevant = []
+    for n, t in stores:
+        nodes = cfg.nodes_of(n)
+        if cfg.reaches(c_nodes, nodes, blocked=k_nodes, after=True) and cfg.reaches(nodes, k_nodes, after=True):
+            relevant.append((n, t))
+    if not relevant:
+        r.ok(construct, "no store to result['ok'] between compare_evaluations and consolidate_results", lib.loc(fi, kcall))
+        return
+    table = _consolidate_failure_table(idx)
+    for n, t in relevant:
+        where = lib.loc(fi, n)
+        loop = fl.enclosing_loop(n, fi.node)
+        base = fl.name_of(t.value)
+        per_result = isinstance(loop, ast.For) and isinstance(loop.target, ast.Name) and base == loop.target.id and \
+            fl.mentions(loop.iter, rn)
+        if not per_result:
+            r.undecided(construct, 'store `%s` is not on the loop variable of a loop over the comparer results' % short(n), where)
+            continue
+        conj = fl.reach_condition(n, fi.node)
+        admits = {}
+        try:
+            for v in OK_VALUES:
+                rec = {'ok': v}
+                rel = [c for c in conj if fl.mentions(c, base)]
+                other = [c for c in conj if not fl.mentions(c, base)]
+                admits[v] = all(mev.ev(c, {base: rec}) for c in rel)
+        except (mev.Unsupported, KeyError):
+            r.undecided(construct, 'guard of `%s` not evaluable over the three ok values: %s'
+                        % (short(n), ' and '.join(unparse(c) for c in conj)), where)
+            continue
+        constant_true = isinstance(n.value, ast.Constant) and n.value.value is True
+        if not admits[True] or constant_true:
+            r.ok(construct, "`%s` can run only for ok in %s: results graded True stay True"
+                 % (short(n, 70), [k for k in OK_VALUES if admits[k]]), where)
+        elif table is None:
+            r.undecided(construct, "`%s` can run for ok == True and the failure test of consolidate_results is not recognised"
+                        % short(n, 70), where)
+        elif table.get('partial') and not table.get(True):
+            r.violation(construct, "`%s` is executed for results whose ok is True as well (guards: %s): after scaling by an answer credit "
+                        "below 1 every AGREEING sample is relabelled 'partial', and consolidate_results counts every ok != True as a "
+                        "failure -- so the number of agreeing samples no longer decides the verdict (a formula that matches only the "
+                        "first failable_evals+1 samples earns the credit, and a perfect match returns the bare comparer record instead "
+                        "of the answer's own credit and message)" % (short(n, 70), ' and '.join(unparse(c) for c in conj) or 'none'),
+                        where, expected="if result['ok'] == 'partial': result['ok'] = ...")
+        else:
+            r.ok(construct, "`%s` may relabel True results, but consolidate_results does not count the new label as a failure"
+                 % short(n, 70), where)
+
+
 def d4_credit(ctx, idx):
     r = ctx.rule('D4.CREDIT', "every comparer grade is multiplied by the answer's credit before consolidation with "
-                 "config['failable_evals']", floor=9)
+                 "config['failable_evals']", floor=10)
     with r:
         fi = idx.func(FGC + '.raw_check')
         name = 'FormulaGrader.raw_check'
@@ -1227,6 +1412,7 @@ def d4_credit(ctx, idx):
                             expected="%s['grade_decimal'] * answer['grade_decimal']" % rv, found=unparse(val))
             else:
                 r.undecided(name + ': credit scaling', 'not recognised: %s' % short(n), where)
+        _ok_stores_between(r, idx, fi, name, rn, ccall, kcall)
         for q, ans in ((FGC, 'answer'), (SGB, None)):
             fi2 = idx.func(q + '.raw_check')
             nm = q.split('.')[-1] + '.raw_check'
@@ -1387,95 +1573,99 @@ def d5_tables(ctx, idx):
             ext = [c for c in lib.calls_named(fi.node, 'extend') if c.args and nf.match('self.math_config_options', c.args[0]) is not None]
             r.check(bool(ext), q.split('.')[-1] + '.schema_config', 'extends math_config_options',
                     'the grader schema no longer includes math_config_options (tolerance/samples/failable_evals unvalidated)', fi.loc)
-        # PercentageString: interpreted on model inputs when possible, structural rules otherwise
+        # PercentageString
         fi = idx.func('mitxgraders.helpers.validatorfuncs.PercentageString')
         C = 'PercentageString'
-        if _percentage_string_model(r, idx, fi, C):
-            fi = None
         _percentage_string_structural(r, idx, fi, C)
         _nonneg_positive(r, idx)
 
 
-def _percentage_string_model(r, idx, fi, C):
-    cases = [('5%', True), (' 2.5% ', True), ('0%', True), ('-1%', False), ('nan%', False), ('abc%', False), ('%', False),
-             ('5', False), ('abc', False), (5, False), (0.5, False), (None, False)]
-    funcs = {n: f.node for n, f in fi.module.funcs.items()}
-    out = {}
-    try:
-        for v, _ in cases:
-            env = {fi.params[0]: v, '__module__': fi.module, '__funcs__': funcs}
-            try:
-                kind, got, stmt = mev.call(fi.node, env)
-                out[repr(v)] = ('return', got) if kind == 'return' and got is not None else ('none', None)
-            except mev.ModelRaise as e:
-                out[repr(v)] = ('raise', e.cls)
-    except mev.Unsupported:
-        return False
+def _percent_sources(idx, fi, expr, env, depth=2):
+    """Does `expr` (after temporaries) carry float(<text>[:-1])?  Follows one same-module helper through its returns."""
+    e = fl.expand(expr, env)
+    for n in ast.walk(e):
+        if nf.match('float(_W[:-1])', n) is not None:
+            return True
+    if depth > 0:
+        for n in ast.walk(e):
+            if isinstance(n, ast.Call) and isinstance(n.func, ast.Name) and n.func.id in fi.module.funcs:
+                h = fi.module.funcs[n.func.id]
+                henv = fl.flat_env(h.node)
+                if any(x.value is not None and _percent_sources(idx, h, x.value, henv, depth - 1) for x in lib.returns_of(h.node)):
+                    return True
+    return False
 
-    def verdict(construct, subset, ok_text):
-        bad = []
-        for v, accept in cases:
-            if repr(v) not in subset:
-                continue
-            kind, what = out[repr(v)]
-            if accept and kind != 'return':
-                bad.append('%r is refused (%s) although it is a valid non-negative percentage' % (v, what or 'returns None'))
-            elif not accept and kind == 'return':
-                bad.append('%r is accepted as a tolerance (validated value %r)' % (v, what))
-            elif not accept and kind == 'none':
-                bad.append('%r falls through: None is returned as the validated tolerance' % (v,))
-            elif not accept and what != 'Invalid':
-                bad.append('%r raises %s, which voluptuous does not treat as a validation failure' % (v, what))
-        if bad:
-            r.violation(construct, '; '.join(bad[:2]), fi.loc)
-        else:
-            r.ok(construct, ok_text, fi.loc)
-    verdict(C + ': sign', {"'5%'", "' 2.5% '", "'0%'", "'-1%'", "'nan%'"}, "5%, 2.5%, 0% accepted; -1% and nan% raise Invalid (model run)")
-    verdict(C + ': form', {"'abc%'", "'%'", "'5'", "'abc'"}, "strings without a number and a trailing % raise Invalid (model run)")
-    verdict(C + ': refusal', {'5', '0.5', 'None'}, 'non-strings raise Invalid (model run)')
-    return True
+
+def _helpers_called(fi, depth=2):
+    out = [fi]
+    if depth > 0:
+        for c in walk_own(fi.node):
+            if isinstance(c, ast.Call) and isinstance(c.func, ast.Name) and c.func.id in fi.module.funcs:
+                for h in _helpers_called(fi.module.funcs[c.func.id], depth - 1):
+                    if h not in out:
+                        out.append(h)
+    return out
 
 
 def _percentage_string_structural(r, idx, fi, C):
-    if fi is None:
-        return
-    if True:
-        neg = []
-        for n in walk_own(fi.node):
-            if isinstance(n, ast.If):
-                t = nf.canon(n.test)
-                if isinstance(t, ast.Compare) and len(t.ops) == 1 and isinstance(t.ops[0], (ast.Lt, ast.LtE)) and \
-                        any(isinstance(s, ast.Raise) for s in n.body):
-                    neg.append((n, t))
-        if not neg:
-            fl.absent(r, idx, C + ': sign', "negative percentages are no longer refused: with tolerance '-1%' nothing is ever within "
-                        'tolerance', fi.loc, expected='if percent < 0: raise Invalid')
-        for n, t in neg:
-            env = lib.local_env(fi.node)
-            lhs = nf.subst(t.left, env)
-            rhs = t.comparators[0]
-            isnum = nf.match('float(_W[:-1])', lhs) is not None
-            if isnum and isinstance(t.ops[0], ast.Lt) and nf.const_value(rhs, None) == 0:
-                cls_ok = all(nf.exc_class_name(s.exc) == 'Invalid' for s in n.body if isinstance(s, ast.Raise))
-                r.check(cls_ok, C + ': sign', 'percent < 0 raises Invalid', 'a negative percentage raises %s, which voluptuous does not '
-                        'treat as a validation failure' % [nf.exc_class_name(s.exc) for s in n.body if isinstance(s, ast.Raise)],
-                        lib.loc(fi, n))
-            elif isnum and isinstance(t.ops[0], ast.LtE) and nf.const_value(rhs, None) == 0:
-                r.violation(C + ': sign', "'0%%' is refused (`%s`): an exact-match percentage tolerance cannot be configured"
-                            % unparse(n.test), lib.loc(fi, n), expected='percent < 0')
-            elif nf.match('float(_W[:-1])', nf.subst(rhs, env)) is not None and nf.const_value(t.left, None) == 0:
-                r.violation(C + ': sign', 'the sign test is inverted (`%s`): positive percentages are refused and negative ones accepted'
-                            % unparse(n.test), lib.loc(fi, n), expected='percent < 0')
-            else:
-                r.undecided(C + ': sign', 'test not recognised: %s' % short(n.test), lib.loc(fi, n))
-        ends = [c for c in lib.calls_named(fi.node, 'endswith') if c.args and nf.const_value(c.args[0], None) == '%']
-        if ends:
-            r.ok(C + ': form', "requires a trailing '%'", lib.loc(fi, ends[0]))
+    """Structure of PercentageString: a sign test on float(text[:-1]) decided over the order classes of the value against 0
+    (negative, zero, positive, nan); a '%' suffix test; every other path raises Invalid."""
+    env = fl.flat_env(fi.node)
+    nan = float('nan')
+    CLASSES = (('negative', -1.0), ('zero', 0.0), ('positive', 1.0), ('nan', nan))
+    sign = []
+    for n in walk_own(fi.node):
+        if isinstance(n, ast.If) and any(isinstance(s_, ast.Raise) for s_ in n.body):
+            names = [x for x in ast.walk(n.test) if isinstance(x, ast.Name)]
+            cmp_ = [x for x in ast.walk(n.test) if isinstance(x, ast.Compare) and
+                    any(isinstance(nf.const_value(y, None), (int, float)) for y in [x.left] + x.comparators)]
+            pvars = [x for x in names if _percent_sources(idx, fi, x, env)]
+            if cmp_ and pvars:
+                sign.append((n, pvars[0].id))
+    if not sign:
+        fl.absent(r, idx, C + ': sign', "negative percentages are no longer refused: with tolerance '-1%' nothing is ever within "
+                  'tolerance', fi.loc, expected='if not percent >= 0: raise Invalid')
+    for n, pv in sign:
+        where = lib.loc(fi, n)
+        try:
+            tab = {name: bool(mev.ev(n.test, {pv: v})) for name, v in CLASSES}
+        except mev.Unsupported as e:
+            r.undecided(C + ': sign', 'test not recognised: %s (%s)' % (short(n.test), e), where)
+            continue
+        raises = [nf.exc_class_name(s_.exc) for s_ in n.body if isinstance(s_, ast.Raise)]
+        if tab == {'negative': True, 'zero': False, 'positive': False, 'nan': True} or \
+                tab == {'negative': True, 'zero': False, 'positive': False, 'nan': False} and _nan_refused_elsewhere(fi, pv):
+            r.check(all(c == 'Invalid' for c in raises), C + ': sign', 'negative (and nan) percentages raise Invalid; 0 is accepted',
+                    'a negative percentage raises %s, which voluptuous does not treat as a validation failure' % raises, where)
+        elif tab['zero'] and tab['negative']:
+            r.violation(C + ': sign', "'0%%' is refused (`%s`): an exact-match percentage tolerance cannot be configured"
+                        % unparse(n.test), where, expected='not percent >= 0')
+        elif tab['positive'] and not tab['negative']:
+            r.violation(C + ': sign', 'the sign test is inverted (`%s`): positive percentages are refused and negative ones accepted'
+                        % unparse(n.test), where, expected='not percent >= 0')
+        elif tab['negative'] and not tab['nan']:
+            r.violation(C + ': sign', "`%s` lets 'nan%%' through (nan < 0 is False): with a nan tolerance nothing is ever within tolerance"
+                        % unparse(n.test), where, expected='not percent >= 0')
+        elif not tab['negative']:
+            r.violation(C + ': sign', '`%s` does not refuse negative percentages' % unparse(n.test), where, expected='not percent >= 0')
         else:
-            r.undecided(C + ': form', "no endswith('%') test found", fi.loc)
-        tail = strip_tail_raise(fi)
-        r.check(tail, C + ': refusal', 'every other value raises Invalid', 'values that are not percentage strings fall through '
-                '(None is returned as the validated tolerance)', fi.loc)
+            r.undecided(C + ': sign', 'sign test `%s` decides %s' % (short(n.test), tab), where)
+    ends = [(h, c) for h in _helpers_called(fi) for c in lib.calls_named(h.node, 'endswith')
+            if c.args and nf.const_value(c.args[0], None) == '%']
+    if ends:
+        r.ok(C + ': form', "requires a trailing '%'", lib.loc(ends[0][0], ends[0][1]))
+    else:
+        r.undecided(C + ': form', "no endswith('%') test found", fi.loc)
+    tail = strip_tail_raise(fi)
+    if tail:
+        r.ok(C + ': refusal', 'no path falls through or returns None: every other value raises', fi.loc)
+    else:
+        r.violation(C + ': refusal', 'values that are not percentage strings fall through (None is returned as the validated '
+                    'tolerance)', fi.loc)
+
+
+def _nan_refused_elsewhere(fi, pv):
+    return any(isinstance(c, ast.Call) and nf.callee_name(c) == 'isnan' and fl.mentions(c, pv) for c in walk_own(fi.node))
 
 
 def _nonneg_positive(r, idx):
@@ -1596,6 +1786,9 @@ MUTANTS = [
            "    return np.max(np.abs(difference)) <= tolerance\n\ndef is_nearly_zero", 'D1'),
     # D4
     Mutant('credit-multiplication-dropped', FG, "            result['grade_decimal'] *= answer['grade_decimal']\n", "            pass\n", 'D4'),
+    Mutant('seeded-ok-recomputed-for-all-results', FG, "            if result['ok'] == 'partial':\n                # Scaling may have taken partial credit down to zero\n                result['ok'] = self.grade_decimal_to_ok(result['grade_decimal'])\n",
+           "            result['ok'] = self.grade_decimal_to_ok(result['grade_decimal'])\n", 'D4'),
+    Mutant('ok-recomputed-unless-false', FG, "            if result['ok'] == 'partial':\n                # Scaling", "            if result['ok'] is not False:\n                # Scaling", 'D4'),
     Mutant('credit-added', FG, "            result['grade_decimal'] *= answer['grade_decimal']\n", "            result['grade_decimal'] += answer['grade_decimal']\n", 'D4'),
     Mutant('failable-evals-ignored', FG, "        consolidated = self.consolidate_results(results, answer, self.config['failable_evals'])",
            "        consolidated = self.consolidate_results(results, answer, 0)", 'D4'),
@@ -1652,6 +1845,7 @@ BENIGN = [
            "        failed_results = (result for result in results if result['ok'] != True)\n        for num_failures, failed_result in enumerate(failed_results, start=1):\n            if len(results) == 1 or num_failures > failable_evals:\n                return failed_result\n"),
     Benign('percentage-string-helper', VF, "    if isinstance(value, str):\n        work = value.strip()\n        if work.endswith(\"%\"):\n            try:\n                percent = float(work[:-1])\n                # (written this way so that 'nan%' is refused too: nan < 0 is False)\n                if not percent >= 0:\n                    raise Invalid(\"Cannot have a negative percentage\")\n                return \"{percent}%\".format(percent=percent)\n            except Invalid:\n                raise\n            except Exception:\n                pass\n\n    raise Invalid(\"Not a valid percentage string\")\n",
            "    percent = _percentage_value(value.strip()) if isinstance(value, str) else None\n    if percent is None:\n        raise Invalid(\"Not a valid percentage string\")\n    if not percent >= 0:\n        raise Invalid(\"Cannot have a negative percentage\")\n    return \"{percent}%\".format(percent=percent)\n\ndef _percentage_value(text):\n    if not text.endswith(\"%\"):\n        return None\n    try:\n        return float(text[:-1])\n    except Exception:\n        return None\n"),
+    Benign('ok-recomputed-unless-true', FG, "            if result['ok'] == 'partial':\n                # Scaling", "            if result['ok'] is not True:\n                # Scaling"),
     Benign('tolerance-any-order', MH, "        Required('tolerance', default='0.01%'): Any(PercentageString, NonNegative(Number)),",
            "        Required('tolerance', default='0.01%'): Any(NonNegative(Number), PercentageString),"),
 ]
